@@ -10,8 +10,8 @@
 use super::*;
 use crate::builtin::BuiltinRuntime;
 use std::mem::ManuallyDrop;
-include!("/verif/harness/common_roles.rs");
-include!("/verif/harness/dynamics_common.rs");
+include!("common_roles.rs");
+include!("dynamics_common.rs");
 
 fn any_arith_op() -> IntegerOperation {
     let i: usize = kani::any();
@@ -147,7 +147,6 @@ macro_rules! integer_arith {
                     let a = if wide { operand_small!($ty) } else { operand!($ty, $muldiv_full || a_full) };
                     let b = if wide { operand_small!($ty) } else { operand!($ty, $muldiv_full || a_full) };
                     kani::assume(b != 0);
-                    kani::cover!(a != 0, "a division happened");
                     check(IntegerOperation::Div, a, b)
                 }
                 | 4 => {
@@ -159,6 +158,7 @@ macro_rules! integer_arith {
                 }
                 | _ => {}
             }
+            kani::cover!(which == $hi, "the last operation of this harness was checked to the end");
         }
 
     };
